@@ -33,7 +33,7 @@ def run_sets(jobs_by_set, flags="dbg", features=None, env_extra=None, timeout=72
             r, err, dt = vlib.run_ai(sc, jobs_by_set[s], flags=flags, features=features, tag="s" + s, env_extra=env_extra, timeout=timeout)
             return s, r, err, dt
 
-    with ThreadPoolExecutor(max_workers=3) as ex:
+    with ThreadPoolExecutor(max_workers=6) as ex:
         for s, r, err, dt in ex.map(one, list(jobs_by_set)):
             out[s] = r
             if r is None:
